@@ -335,6 +335,25 @@ void do_waff(Toks &tk, std::ostream &os)
     }
     std::remove(g_tmp_path.c_str());
 }
+// ------------------------------------------------------------------ RNG: the reference stream of the library's generator type
+void do_rng(Toks &tk, std::ostream &os)
+{
+    std::string id = "R " + tk.tok();
+    long seed = tk.integer();
+    size_t n = (size_t)tk.integer();
+    utils::RandomGenerator<> g{(std::time_t)seed};
+    os << id << " draws";
+    for (size_t i = 0; i < n; i++)
+        os << " " << hx(g());
+    os << "\n";
+    // and an independently constructed std engine + distribution
+    std::mt19937 e(static_cast<unsigned int>(seed));
+    std::uniform_real_distribution<double> d;
+    os << id << " std";
+    for (size_t i = 0; i < n; i++)
+        os << " " << hx(d(e));
+    os << "\n";
+}
 } // namespace vh
 
 int main(int argc, char **argv)
@@ -374,6 +393,8 @@ int main(int argc, char **argv)
                 vh::do_e2e(tk, buf);
             else if (c == "LAYOUT")
                 vh::do_layout(tk, buf);
+            else if (c == "RNG")
+                vh::do_rng(tk, buf);
             else if (c == "WAFF")
                 vh::do_waff(tk, buf);
             else if (c == "#")
